@@ -53,7 +53,9 @@ impl<W: Write> DeflateEncoder<W> {
 }
 impl<W: Write> DeflateEncoder<W> {
     #[verifier::external_body]
+    // flate2: levels are 0..=9 (the zlib back ends assert on anything else)
     pub fn new(w: W, level: flate2::Compression) -> (r: DeflateEncoder<W>)
+        requires level.0 <= 9,
         ensures r.inner() == w, r.g_level() == level.0 as int, r.consumed() == Seq::<u8>::empty(),
     { unimplemented!() }
 }
@@ -96,7 +98,9 @@ impl<W: Write> BzEncoder<W> {
 }
 impl<W: Write> BzEncoder<W> {
     #[verifier::external_body]
+    // libbz2: BZ2_bzCompressInit refuses a block size outside 1..=9 and bzip2 0.4.4 (src/mem.rs:123) asserts on that
     pub fn new(w: W, level: bzip2::Compression) -> (r: BzEncoder<W>)
+        requires 1 <= level.0 <= 9,
         ensures r.inner() == w, r.g_level() == level.0 as int, r.consumed() == Seq::<u8>::empty(),
     { unimplemented!() }
 }
